@@ -27,12 +27,14 @@ structure View where
   noTimeouts : Bool
   rm : Option Nat
   nextPacketId : Nat
+  connackSet : Bool
+  policy : OfflinePolicy
 
 def Engine.view (e : Engine) : View :=
   { state := e.state, ops := e.ops, nextOpId := e.nextOpId, userQ := e.userQ, resubQ := e.resubQ, highQ := e.highQ,
     current := e.current, allocated := e.allocated, pendingPub := e.pendingPub, pendingNonPub := e.pendingNonPub,
     pendingWC := e.pendingWC, noTimeouts := e.timeouts.isEmpty, rm := e.settings.map (·.receiveMaximum),
-    nextPacketId := e.nextPacketId }
+    nextPacketId := e.nextPacketId, connackSet := e.connackDeadline.isSome, policy := e.cfg.policy }
 
 def View.Located (v : View) (id : Nat) : Prop :=
   id ∈ v.userQ ∨ id ∈ v.resubQ ∨ id ∈ v.highQ ∨ v.current = some id ∨ id ∈ v.pendingWC ∨
@@ -147,7 +149,7 @@ theorem releaseFrom_nil (pid : Option Nat) : releaseFrom [] pid = [] := by
 /-- the view after an operation is completed (either way): the operation and its packet-id bindings are gone; a
     DISCONNECT completing in PendingDisconnect halts the engine -/
 def View.erased (v : View) (id : Nat) (o : Op) (s' : PState) : View :=
-  { state := s', ops := mapErase v.ops id, nextOpId := v.nextOpId, userQ := v.userQ, resubQ := v.resubQ, highQ := v.highQ, current := v.current, allocated := releaseFrom v.allocated o.packetId, pendingPub := releaseFrom v.pendingPub o.packetId, pendingNonPub := releaseFrom v.pendingNonPub o.packetId, pendingWC := v.pendingWC, noTimeouts := v.noTimeouts, rm := v.rm, nextPacketId := v.nextPacketId }
+  { state := s', ops := mapErase v.ops id, nextOpId := v.nextOpId, userQ := v.userQ, resubQ := v.resubQ, highQ := v.highQ, current := v.current, allocated := releaseFrom v.allocated o.packetId, pendingPub := releaseFrom v.pendingPub o.packetId, pendingNonPub := releaseFrom v.pendingNonPub o.packetId, pendingWC := v.pendingWC, noTimeouts := v.noTimeouts, rm := v.rm, nextPacketId := v.nextPacketId, connackSet := v.connackSet, policy := v.policy }
 
 theorem Big.weaken {S T U W : List Nat} {v : View} (h : Big S U v) (hst : ∀ x ∈ S, x ∈ T) (huw : ∀ x ∈ U, x ∈ W) : Big T W v := by
   have hl : ∀ id o, v.ops.lookup id = some o → v.Located id ∨ id ∈ T :=
@@ -1448,7 +1450,7 @@ theorem handleOpened_stp (e : Engine) (d : Nat) (hD : D1 e.view) : Stp [] [] [] 
           show _ = e.view
           have : e.view.current = none := d1a
           cases hv : e.view with
-          | mk a b c d f g cur i j k l m n o => rw [hv] at this; simp only at this; subst this; rfl
+          | mk a b c d f g cur i j k l m n o p2 q2 => rw [hv] at this; simp only at this; subst this; rfl
         rw [this]; exact h
       refine hcur.setState .pendingConnack (fun _ => ?_) (fun hh => by cases hh) (fun hh => by cases hh)
       refine ⟨?_, ?_, d1c, d1d, d1f⟩
@@ -1474,7 +1476,7 @@ theorem handleOpened_stp (e : Engine) (d : Nat) (hD : D1 e.view) : Stp [] [] [] 
     have h3 := big_enqueue_high (e1.createOp e1.createConnect none).1 e1.nextOpId _ true h2 f6 (by rw [f2]; exact Nat.lt_succ_self _)
       (fun _ => hconn)
       (by cases hc : e1.createConnect <;> first | rfl | (rw [hc] at hconn; cases hconn)) rfl
-    exact h3
+    exact { h3 with p1s := h3.p1s }
 
 /-! ### the connection-closed handler -/
 
@@ -2348,7 +2350,7 @@ theorem handleClosed_inv (e : Engine) (hinv : Inv e) : Inv e.handleClosed.1 := b
     let e0 : Engine := { e with state := .disconnected, connackDeadline := none, nextPing := none, pingDeadline := none, timeouts := [] }
     have hok0 : e0.core.Ok := ((Pres.of_core_conn (e := e) (e' := e0) false rfl (by simp)) hok).1
     have h0 : Big [] [] e0.view := by
-      show Big [] [] { e.view with state := .disconnected, noTimeouts := true }
+      show Big [] [] { e.view with state := .disconnected, noTimeouts := true, connackSet := false }
       exact { h with h1 := (fun hh => by cases hh), c1 := (fun hh => by cases hh), f := (fun hh => by cases hh) }
     have hst0 : e0.state = .disconnected := rfl
     have s1 := closeCurrent_stp e0 hst0
@@ -2877,7 +2879,7 @@ theorem handleConnack_inv (e : Engine) (c : Connack) (hinv : Inv e) :
         have iv := initSlowStart_view e1
         -- connected, nothing in flight but the CONNECT
         have h1 : Big [] [] e1.view := by
-          show Big [] [] { e.view with state := .connected, rm := some (e.buildSettings c).receiveMaximum }
+          show Big [] [] { e.view with state := .connected, rm := some (e.buildSettings c).receiveMaximum, connackSet := false }
           exact { h with
             h1 := (fun hh => by cases hh)
             c1 := (fun _ i hi o ho hk => by
@@ -3654,7 +3656,7 @@ theorem view_current_none (e : Engine) (h : e.current = none) : ({ e with curren
   show { e.view with current := none } = e.view
   have : e.view.current = none := h
   cases hv : e.view with
-  | mk a b c d f g cur i j k l m n o => rw [hv] at this; simp only at this; subst this; rfl
+  | mk a b c d f g cur i j k l m n o p2 q2 => rw [hv] at this; simp only at this; subst this; rfl
 
 theorem prepareCurrent_out (e3 : Engine) (id : Nat) (o : Op) (hok : e3.core.Ok) (h : Big [] [] e3.view) (hc : e3.current = some id) :
     SeatOut e3 (e3.prepareCurrent id o) := by
